@@ -116,3 +116,50 @@ Proof.
     rewrite (bind_ok _ _ _ _ E4). exists st'. split; [reflexivity|]. split; [exact C4|]. split; [exact S4|]. split; [exact Cl4|].
     repeat split; congruence.
 Qed.
+
+Lemma Core_shape : forall st gs f rest, Core st gs -> stack st = f :: rest -> exists g gs', gs = g :: gs'.
+Proof.
+  intros st gs f rest C Hs. destruct C as [_ _ _ Ch _]. unfold Chain in Ch. rewrite Hs in Ch.
+  destruct gs as [|g gs']; [destruct Ch|eauto].
+Qed.
+Lemma Core_nil : forall st gs, Core st gs -> stack st = [] -> gs = [].
+Proof.
+  intros st gs C Hs. destruct C as [_ _ _ Ch _]. unfold Chain in Ch. rewrite Hs in Ch.
+  destruct gs; [reflexivity|destruct Ch].
+Qed.
+Lemma Core_head_state : forall st gs f rest, Core st gs -> stack st = f :: rest -> fstate f = ACTIVE \/ fstate f = DEACTIVE.
+Proof. intros st gs f rest C Hs. destruct C as [_ _ D _ _]. destruct D as [_ D2 _ _]. rewrite Hs in D2. exact D2. Qed.
+Lemma check_rollback_ok : forall f, fstate f = ACTIVE \/ fstate f = DEACTIVE -> check_prereq f M_rollback = None.
+Proof. intros f [H|H]; unfold check_prereq; rewrite H; reflexivity. Qed.
+
+(* Session.rollback(): every frame is rolled back, innermost first *)
+Lemma rollback_all_core : forall fuel st gs, Core st gs -> length (stack st) < fuel ->
+  exists st', rollback_all fuel st = (Ok, st') /\ Core st' [] /\ stack st' = [] /\ is_clean st' = true /\
+    committed st' = committed st /\ nfid st' = nfid st /\ nobj st' = nobj st /\ handles st' = handles st /\ eoc st' = eoc st.
+Proof.
+  induction fuel as [|fuel IH]; intros st gs C Hl; [lia|].
+  cbn [rollback_all]. destruct (stack st) as [|f rest] eqn:Hs.
+  - exists st. pose proof (Core_nil _ _ C Hs) as X. subst gs. split; [reflexivity|]. split; [exact C|]. split; [exact Hs|].
+    split; [|repeat split; reflexivity].
+    destruct C as [G Jh D Ch Em]. exact (Em Hs).
+  - destruct (Core_shape _ _ _ _ C Hs) as [g [gs' X]]. subst gs.
+    rewrite (check_rollback_ok f (Core_head_state _ _ _ _ C Hs)).
+    destruct (rollback_head_core st g gs' f rest C Hs) as (s1 & E1 & C1 & S1 & Cl1 & K1 & K2 & K3 & K4 & K5 & K6).
+    rewrite (bind_ok _ _ _ _ E1).
+    destruct (IH s1 gs' C1) as (s2 & E2 & C2 & S2 & Cl2 & L1 & L2 & L3 & L4 & L5).
+    { rewrite S1. cbn in Hl. lia. }
+    exists s2. split; [exact E2|]. split; [exact C2|]. split; [exact S2|]. split; [exact Cl2|]. repeat split; congruence.
+Qed.
+
+(* handle.rollback() of the innermost frame is SessionTransaction.rollback of that frame *)
+Lemma t_rollback_head : forall st gs n, Core st gs -> head_is n st = true -> t_rollback n st = rollback_head st.
+Proof.
+  intros st gs n C Hh. unfold head_is in Hh. destruct (stack st) as [|f rest] eqn:Hs; [discriminate|].
+  unfold t_rollback, find_frame. rewrite Hs. cbn [find]. rewrite Hh.
+  rewrite (check_rollback_ok f (Core_head_state _ _ _ _ C Hs)).
+  assert (X : close_above (S (length (f :: rest))) n st = (Ok, st)).
+  { cbn [close_above]. unfold head_is. rewrite Hs, Hh. reflexivity. }
+  rewrite (bind_ok _ _ _ _ X). reflexivity.
+Qed.
+Lemma t_rollback_gone : forall st n, find_frame n st = None -> t_rollback n st = (Err E_CLOSED, st).
+Proof. intros st n H. unfold t_rollback. rewrite H. reflexivity. Qed.
